@@ -199,9 +199,23 @@ class CallMixin:
             fs = self.func_src(f)
         except (KeyError, OSError) as ex:
             raise Unsupported(f'source of {f.__qualname__} not found: {ex}')
-        c = self.reg.lookup(fs.file, fs.qual)
-        if c is None:
+        cands = self.reg.candidates(fs.file, fs.qual)
+        if not cands:
             raise Unsupported(f'callee {fs.qual} has no contract (and is not marked inline)')
+        c = None
+        if len(cands) > 1:
+            try:
+                env0 = self.bind(fs.node.args, args, kwargs, f.__defaults__, None)
+            except PyRaise:
+                env0 = None
+            for cc in cands:
+                if env0 is not None and all(self.kind_matches(S, env0[k]) for k, S in cc.params.items() if k in env0):
+                    c = cc
+                    break
+            if c is None:
+                raise Unsupported(f'no contract variant of {fs.qual} accepts the argument shapes at this call')
+        else:
+            c = cands[0]
         mod = src.import_module(fs.file)
         if c.inline:
             self.callees[fs.qual] = 'inlined'
@@ -216,6 +230,37 @@ class CallMixin:
         self.callees[fs.qual] = 'contract (trusted)' if c.trusted else 'contract'
         env = self.bind(fs.node.args, args, kwargs, f.__defaults__, None)
         return self.apply_contract(c, fs, env, mod, node)
+
+    def kind_matches(self, S, v):
+        """does the shape of an actual argument fit the declared parameter sort (variant dispatch)"""
+        if isinstance(S, api.Const):
+            return not is_sym(v) and v == S.value
+        if isinstance(S, api.Opt):
+            return v is None or isinstance(v, VOpt) or self.kind_matches(S.inner, v)
+        if isinstance(v, VOpt):
+            return self.kind_matches(S, v.val)
+        if S is api.Str:
+            return isinstance(v, str) or (z3.is_expr(v) and v.sort() == STR)
+        if S is api.Int:
+            return (isinstance(v, int) and not isinstance(v, bool)) or (z3.is_expr(v) and v.sort() == INT)
+        if S is api.Bool:
+            return isinstance(v, bool) or (z3.is_expr(v) and v.sort() == z3.BoolSort())
+        if isinstance(S, api.Struct):
+            return isinstance(v, VStruct) and (v.pycls is None or not S.pycls or issubclass(v.pycls, self.resolver(None)(S.pycls)))
+        if isinstance(S, api.Seq):
+            return isinstance(v, (VBox, PyList, tuple, list)) or (z3.is_expr(v) and isinstance(v.sort(), z3.SeqSortRef) and not z3.is_string(v))
+        if isinstance(S, api.Abstract):
+            return isinstance(v, VAbs)
+        if isinstance(S, api.Enum):
+            if z3.is_expr(v):
+                return v.sort() == self.zs.zsort(S)
+            self.zs.zsort(S)
+            return any(o is v for o in self.zs.enums[S.name][2].values())
+        if isinstance(S, api.Union):
+            if z3.is_expr(v):
+                return v.sort() == self.zs.zsort(S) or any(self.zs.zsort(arm) == v.sort() for _, arm in S.arms.values())
+            return any(isinstance(v, pyt) for pyt, _ in S.arms.values())
+        return True
 
     def call_method(self, recv, name, args, kwargs=None, node=None):
         d = _mro_dict(recv.pycls)
@@ -475,11 +520,12 @@ class CallMixin:
             a2 = [zs.lift(self.unwrap_term(a), s) for a, s in zip(args, sorts)]
             return self.wrap_sort(self.recfuns[spec.name](*a2), spec.ret)
         # macro: expand in place
-        if isinstance(spec.ret, (api.Enum, api.Union)):
-            zs.zsort(spec.ret)
-        for S_ in spec.sorts:
-            if isinstance(S_, (api.Enum, api.Union)):
-                zs.zsort(S_)
+        for S_ in list(spec.sorts) + [spec.ret]:
+            if S_ is not None and not isinstance(S_, (api.Struct, api.Opt, api.TupleS, api.Const)):
+                try:
+                    zs.zsort(S_)
+                except TypeError:
+                    pass
         env = {a.arg: v for a, v in zip(fn.args.args, args)}
         if len(args) != len(fn.args.args):
             raise Unsupported(f'spec {spec.name}: arity')
